@@ -295,6 +295,13 @@ def stars_extra(kind=SMG):
     for t in ((2, None, 0, 1, 3, None), (2, None, 0, 1, None, 3), (None, 2, 0, 1, None, 3), (3, None, 1, 0, None, 2),
               (None, 3, 1, 0, 2, None)):
         out.append(mk(kind, az, ab, bstereo=[("PlanarBond", t, 0)]))
+    # [1.1.1]propellane: two bonded bridgeheads that share all their other ligands - their descriptors are over the SAME atom set;
+    # unspecified parities (equal as descriptors whichever atom is the centre) and specified ones.  (Not mixed: an unspecified
+    # descriptor over the same five atoms equals the other centre's specified one too, so which mappings preserve the pair is ambiguous.)
+    pa = [(0, "C"), (1, "C"), (2, "C"), (3, "C"), (4, "C")]
+    pbd = [(0, 1), (0, 2), (0, 3), (0, 4), (1, 2), (1, 3), (1, 4)]
+    for p0, p1 in ((None, None), (1, 1), (1, -1)):
+        out.append(mk(kind, pa, pbd, astereo=[("Tetrahedral", (0, 1, 2, 3, 4), p0), ("Tetrahedral", (1, 0, 2, 3, 4), p1)]))
     # axis / planar bond with a lone pair on one end (iminium-like X(Y)C=N-Z: 0=C, 1=N) and on both ends, placeholder at every
     # position it can take, both parities of the axis
     im = [(0, "C"), (1, "N"), (2, "F"), (3, "Cl"), (4, "Br")]
@@ -495,6 +502,25 @@ def hubs(tier="quick"):
         bonds2 = bonds + [(k + 3, k + 4), (k + 3, k + 5), (k + 3, k + 6)]
         out.append(mk(SMG, atoms2, bonds2, astereo=[("Tetrahedral", (k + 3, 3, k + 4, k + 5, k + 6), 1)]))
     out += hub_arms()
+    return out
+
+
+def cages():
+    """small cages in which a stereo centre has only ring neighbours, and molecules with two chirality axes: configurations that
+    colour refinement cannot see locally, so only the descriptor comparison along a mapping decides"""
+    out = []
+    # Pt / C 'paddlane': four one-atom bridges (O, O, S, S) between a square-planar Pt and a tetrahedral C
+    at = [(0, "Pt"), (1, "C"), (2, "O"), (3, "O"), (4, "S"), (5, "S")]
+    bd = [(0, i) for i in (2, 3, 4, 5)] + [(1, i) for i in (2, 3, 4, 5)]
+    for sp in ((0, 2, 3, 4, 5), (0, 2, 4, 3, 5)):            # cis (O next to O) / trans
+        for par in (1, -1):
+            out.append(mk(SMG, at, bd, astereo=[("SquarePlanar", sp, 0), ("Tetrahedral", (1, 2, 3, 4, 5), par)]))
+    # two axes 2-3 and 12-13 that share the ligand 5 (an oxygen bridge); second axis written as the mirror image of the first by
+    # LIGAND ORDER with the same parity sign (meso), with the same order (chiral), and with opposite sign
+    at = [(0, "F"), (1, "Cl"), (2, "C"), (3, "C"), (4, "H"), (5, "O"), (10, "F"), (11, "Cl"), (12, "C"), (13, "C"), (14, "H")]
+    bd = [(2, 3), (2, 0), (2, 1), (3, 4), (3, 5), (12, 13), (12, 10), (12, 11), (13, 14), (13, 5)]
+    for t2, p2 in (((11, 10, 12, 13, 14, 5), 1), ((10, 11, 12, 13, 14, 5), 1), ((10, 11, 12, 13, 14, 5), -1), ((11, 10, 12, 13, 14, 5), -1)):
+        out.append(mk(SMG, at, bd, bstereo=[("AtropBond", (0, 1, 2, 3, 4, 5), 1), ("AtropBond", t2, p2)]))
     return out
 
 
